@@ -1411,6 +1411,21 @@ def rand_atomic_result(rng, mol=None, allow_wfn=True):
         props["return_gradient"] = np.array([rfloat(rng) for _ in range(3 * n)]).reshape(n, 3)
     if rng.random() < 0.3:
         props["scf_total_hessian"] = np.array([rfloat(rng) for _ in range(9 * n * n)])
+    # every array-valued property the model declares gets its turn, in its declared shape (the plain encodings write it flat and
+    # rely on the field's validator to restore the shape)
+    from qcelemental.models import AtomicResultProperties as _ARP
+
+    for fname in sorted(_ARP.__fields__):
+        if fname in props or rng.random() >= 0.12:
+            continue
+        if fname.endswith("_gradient"):
+            props[fname] = np.array([rfloat(rng) for _ in range(3 * n)]).reshape(n, 3)
+        elif fname.endswith("_hessian"):
+            props[fname] = np.array([rfloat(rng) for _ in range(9 * n * n)]).reshape(3 * n, 3 * n)
+        elif fname.endswith("_dipole_moment"):
+            props[fname] = np.array([rfloat(rng) for _ in range(3)])
+        elif fname.endswith("_quadrupole_moment"):
+            props[fname] = np.array([rfloat(rng) for _ in range(9)]).reshape(3, 3)
     if rng.random() < 0.3:
         props["scf_iterations"] = rng.randint(1, 300)
     if driver == "energy":
@@ -1798,14 +1813,12 @@ def check_files(ctx, out: Outcome, name, obj, case_seed, d):
             for b, who in ((back, "from_file"), (back2, "parse_file")):
                 if b.get_hash() != obj.get_hash():
                     out.violations.append(Finding("oracle:file_suffix", case, observed=b.get_hash(), expected=obj.get_hash(), detail=f"{who} after to_file: molecule hash differs"))
-                elif who == "parse_file":
-                    # parse_file is a pure parse -> the whole instance; from_file re-validates through from_data
-                    # (another property's territory) -> molecular identity (hash) and array shapes only
+                else:
+                    # both readers hand back the whole instance: parse_file is a pure parse, and from_file passes the payload (which
+                    # carries validated=True) to from_data without re-validating it — every field, provenance included, as written
                     dd = inst_same(obj, b)
                     if dd:
                         out.violations.append(Finding("oracle:file_suffix", case, observed=dd, detail=f"{who} after to_file: fields differ"))
-                elif b.geometry.shape != obj.geometry.shape or len(b.symbols) != len(obj.symbols):
-                    out.violations.append(Finding("oracle:file_suffix", case, observed=str(b.geometry.shape), expected=str(obj.geometry.shape), detail=f"{who} after to_file: array shapes not restored"))
     else:
         for enc, suf, mode in (("json", ".json", "w"), ("json", ".js", "w"), ("msgpack-ext", ".msgpack", "wb"), ("msgpack", ".msgpack", "wb")):
             p = os.path.join(d, f"x{suf}")
